@@ -4,6 +4,7 @@ package main
 
 import (
 	"context"
+	"sync/atomic"
 	"fmt"
 	"strings"
 	"time"
@@ -94,6 +95,52 @@ func (w *World) execEmitOp(ctx context.Context, toks []string) (bool, error) {
 			}
 		}
 		w.printf("eclosed %s %v\n", toks[1], closed)
+	case "ewedge":
+		// ewedge trials : a legacy subscriber whose forwarder lags (held at its hook point) until its bus
+		// subscription is full and an Emit is blocked on it, is cancelled; a second subscriber keeps
+		// reading. Whatever the forwarder's select picks next (the coin is flipped once per trial), the
+		// emitter must get through and the second subscriber must receive every event.
+		trials := atoi(toks[1])
+		wedged, lost := 0, 0
+		const n = 40
+		for t := 0; t < trials; t++ {
+			em := &events.EventEmitter{}
+			ctxA, cancelA := context.WithCancel(w.ctx)
+			ctxB, cancelB := context.WithCancel(w.ctx)
+			_ = em.Subscribe(ctxA)
+			chB := em.Subscribe(ctxB)
+			var gotB int32
+			go func() {
+				for range chB {
+					atomic.AddInt32(&gotB, 1)
+				}
+			}()
+			w.holdHook("emitter.received")
+			done := make(chan struct{})
+			go func() {
+				for k := 1; k <= n; k++ {
+					em.Emit(w.ctx, k)
+				}
+				close(done)
+			}()
+			time.Sleep(20 * time.Millisecond) // both bus subscriptions are full by now, the emitter waits
+			cancelA()
+			time.Sleep(time.Millisecond)
+			w.releaseHook("emitter.received")
+			select {
+			case <-done:
+				for i := 0; i < 500 && atomic.LoadInt32(&gotB) < n; i++ {
+					time.Sleep(time.Millisecond)
+				}
+				if atomic.LoadInt32(&gotB) != n {
+					lost++
+				}
+			case <-time.After(time.Second):
+				wedged++
+			}
+			cancelB()
+		}
+		w.printf("ewedge trials=%d wedged=%d lost=%d\n", trials, wedged, lost)
 	default:
 		return false, nil
 	}
